@@ -92,6 +92,17 @@ def ctx_table():
     T["object_collect_pattern_source"] = (lambda v: [A.Declare(A.ObjectE([A.Single(V("r"), False, True)]), V(v)), P(V("r"))], {"object"})
     T["list_collect_param"] = (lambda v: [A.FuncStmt("g", [A.ListE([(V("r"), False)], True)], False, [A.Return(V("r"))]), P(A.call("g", V(v)))], {"list"})
     T["list_pattern_assign"] = (lambda v: [A.Declare(V("p"), A.Int(0)), A.Assign(A.lst(V("p")), V(v)), P(V("p"))], {"list"})
+    T["for_iterable_discard"] = (lambda v: [A.For(V("_"), V(v), [P(A.Str("body"))]), P(A.Str("after"))], {"list", "string", "object"})
+    T["for_iterable_discard_pair"] = (lambda v: [A.For(A.lst(V("_"), V("_")), V(v), []), P(A.Str("after"))], {"list", "string", "object"})
+    T["for_iterable_empty_body"] = (lambda v: [A.For(V("kv"), V(v), []), P(A.Str("after"))], {"list", "string", "object"})
+    T["empty_object_pattern_source"] = (lambda v: [A.Declare(A.ObjectE([]), V(v)), P(A.Str("after"))], {"object"})
+    T["empty_object_pattern_assign"] = (lambda v: [A.Assign(A.ObjectE([]), V(v)), P(A.Str("after"))], {"object"})
+    T["empty_object_pattern_param"] = (lambda v: [A.FuncStmt("g", [A.ObjectE([])], False, [A.Return(A.Int(1))]), P(A.call("g", V(v)))], {"object"})
+    T["empty_object_pattern_nested"] = (lambda v: [A.Declare(A.lst(A.ObjectE([])), A.lst(V(v))), P(A.Str("after"))], {"object"})
+    T["empty_object_pattern_for"] = (lambda v: [A.For(A.lst(V("_"), A.ObjectE([])), A.lst(V(v)), [P(A.Str("body"))])], {"object"})
+    T["discard_rest_list_pattern_source"] = (lambda v: [A.Declare(A.ListE([(V("_"), False)], True), V(v)), P(A.Str("after"))], {"list"})
+    T["discard_rest_object_pattern_source"] = (lambda v: [A.Declare(A.ObjectE([A.Single(V("_"), False, True)]), V(v)), P(A.Str("after"))], {"object"})
+    T["discard_target"] = (lambda v: [A.Declare(V("_"), V(v)), A.Assign(V("_"), V(v)), P(A.Str("after"))], set(KINDS))
     T["for_iterable"] = (lambda v: [A.For(V("kv"), V(v), [P(V("kv"))])], {"list", "string", "object"})
     T["for_pattern_param"] = (lambda v: [A.FuncStmt("g", [A.lst(V("p"))], False, [A.Return(V("p"))]), P(A.call("g", V(v)))], {"list"})
     T["callee"] = (lambda v: [A.ExprStmt(A.Call(V(v), [(A.Int(7), False)]))], {"func", "builtin"})
@@ -121,7 +132,14 @@ def build_case(desc):
         va, vb = (desc[6], desc[7]) if len(desc) > 7 else (0, 1)
         prog = [A.Declare(V("a"), value(lk, variant=va)), A.Declare(V("b"), V("a") if same_fn else value(rk, variant=vb))]
         prog += probes([("a", lk), ("b", rk)])
-        if form == "plain":
+        if form in ("lit", "lit_right", "lit_left"):
+            # the operands written out in the expression itself (a literal next to the operator), not fetched from variables
+            l = value(lk, variant=va) if form != "lit_right" else V("a")
+            r = value(rk, variant=vb) if form != "lit_left" else V("b")
+            if isinstance(l, (A.ObjectE, A.FuncE)):
+                l = A.Paren(l)
+            prog.append(A.pr(A.Bin(op, l, r)))
+        elif form == "plain":
             prog.append(A.pr(A.Bin(op, V("a"), V("b"))))
         elif form == "var":
             prog += [A.OpAssign(op, V("a"), V("b")), A.pr(V("a"))]
@@ -202,6 +220,18 @@ def post_ctx(case, r, res, obs):
     return []
 
 
+def literal_operand_descs(ops, tier):
+    out = []
+    for op in ops:
+        for lk in KINDS:
+            for rk in KINDS:
+                for form in ("lit", "lit_right", "lit_left"):
+                    # variant 2 is the empty / zero-like value of each kind ([] {} "" -3), variant 0 an ordinary one
+                    for va, vb in ((2, 2), (0, 2), (2, 0)) if (tier == "thorough" or form == "lit_right") else ((2, 2),):
+                        out.append(("op", form, op, lk, rk, False, va, vb))
+    return out
+
+
 OPASSIGN_SET = None
 
 
@@ -228,6 +258,7 @@ def run(rep, tier):
             for lk in KINDS:
                 for rk in KINDS:
                     descs.append(("op", form, op, lk, rk))
+    descs += literal_operand_descs(OPS, tier)
     for name in CTX:
         for k in KINDS:
             descs.append(("ctx", name, k))
